@@ -311,7 +311,7 @@ pub fn c04() -> Property {
 pub fn c07() -> Property {
     Property {
         id: "C07",
-        rule: "cases: generated fault history (phase 1, as C03 plus user request_diagnostics and output writes; exhaustive over all placements of depth 5/7 over a 6-symbol alphabet from start-up and from data exchange), then a fault-free continuation (phase 2) with the reference slaves behaving to the standard. Bounded liveness: within K = 30 + 6*max_retry completed DP cycles of phase 2 every peripheral whose configuration matches is_running(), its events since the last Offline contain Online, Configured, DataExchanged in this order, and its reference slave is in Data_Exch locked to this master. Non-trivial = phase 2 starts from a joint state other than 'all running'; distinct by (is_live, is_running, slave state, stored FCB) of all peripherals + max_retry.",
+        rule: "cases: generated fault history (phase 1, as C03 plus user request_diagnostics and output writes; exhaustive over all placements of depth 5/7 over a 6-symbol alphabet from start-up and from data exchange), then a fault-free continuation (phase 2) with the reference slaves behaving to the standard. Bounded liveness: within K = 36 + 6*max_retry completed DP cycles (slow devices need up to five more validation polls) of phase 2 every peripheral whose configuration matches is_running(), its events since the last Offline contain Online, Configured, DataExchanged in this order, and its reference slave is in Data_Exch locked to this master. Non-trivial = phase 2 starts from a joint state other than 'all running'; distinct by (is_live, is_running, slave state, stored FCB) of all peripherals + max_retry.",
         assumptions: DP_ASSUMPTIONS.to_vec(),
         subchecks: dp_subchecks!(Which::C07),
         plan: dp_plan,
